@@ -206,7 +206,7 @@ _PATCHES = {
     ],
     "C11": [
         ("RandomWithoutRepetition::select errs exactly when there are too few individuals and otherwise returns the requested number of distinct members.",
-         "RandomWithoutRepetition::select errs exactly when there are too few individuals and otherwise returns the requested number of distinct members. All / None / CloneSingle / FullyRandom::select are proved (unbounded) to return everything in order / nothing / an error unless exactly one individual and else the requested number of references to it / exactly the requested number of members. objective_bounds (in-place Kani function contract), proportional_weights, reverse_rank and into_single_ref are Kani triples at enumerated sizes."),
+         "RandomWithoutRepetition::select errs exactly when there are too few individuals and otherwise returns the requested number of distinct members. All / None / CloneSingle / FullyRandom::select are proved (unbounded) to return everything in order / nothing / an error unless exactly one individual and else the requested number of references to it / exactly the requested number of members. objective_bounds (in-place Kani function contract), proportional_weights (size 2, all values) and into_single_ref are Kani triples; reverse_rank and proportional_weights at sizes 0..4 are checked by a bounded native enumeration over a value grid (CBMC does not finish on reverse_rank's sort/group_by within 50 minutes)."),
         ("Not covered: ExponentialRank, RouletteWheel, SUS, Tournament, DE selections.",
          "ExponentialRank, RouletteWheel, SUS, Tournament, the DE selections and the IWO selection (sampling loops, float weights) are covered ONLY by a bounded native run of the real components over populations, counts and seeds (native_bounded in the evidence, never counted as proved); writing it exposed the ExponentialRank defect (repaired)."),
     ],
